@@ -4,7 +4,7 @@ package checks
 
 // Reproductions, on the real file storage, of what Model/FSMeta.lean finds about GetMeta's preference for pending
 // files and about its repair (GoLevel.C04FS.stale_pending_after_smaller_setmeta, repair_destroys_backup).  They need the
-// hook storage.VerifStep.  TestStalePendingAfterRecover FAILS on the code as it is (possible defect, reported).
+// hook storage.VerifStep.
 
 import (
 	"fmt"
@@ -14,10 +14,7 @@ import (
 	"strings"
 	"testing"
 
-	"github.com/syndtr/goleveldb/leveldb"
-	"github.com/syndtr/goleveldb/leveldb/opt"
 	"github.com/syndtr/goleveldb/leveldb/storage"
-	"github.com/syndtr/goleveldb/leveldb/util"
 )
 
 func fsmTestListing(t *testing.T, dir string) string {
